@@ -12,7 +12,7 @@ import gc
 from gfv import dbsnap
 from gfv import textmodel as tm
 from gfv.core import Failure
-from gfv.refmodels import FIELDS, MergeModel, ModelError, gff_links, gtf_links_factory
+from gfv.refmodels import FIELDS, MergeModel, ModelAmbiguous, ModelError, gff_links, gtf_links_factory
 
 PROP = "C05"
 RULE = (
@@ -165,7 +165,11 @@ class SeqLeg(object):
             kw["force_merge_fields"] = force
         if gtf:
             kw.update(disable_infer_genes=True, disable_infer_transcripts=True)
-        model, outcome, _ = self._model(case)
+        try:
+            model, outcome, _ = self._model(case)
+        except ModelAmbiguous:
+            ctx.count("excluded: ambiguous merge target")
+            return None
         bad_force = strategy == "merge" and bool(set(force) & {"start", "end"})
         path1 = ctx.write("one.txt", "\n".join(tm.render_line(r, d) for r in first) + "\n")
         dbfn = ctx.path("m.db") if case["file_db"] else ":memory:"
